@@ -261,7 +261,7 @@ func runC17(c *kit.Ctx) {
 	r1 := c.Rule("R1", "encoder and decoder agree on the packet layout", 10)
 	r2 := c.Rule("R2", "checksum acceptance table", 4)
 	r3 := c.Rule("R3", "decoder indices are implied by length guards", 5)
-	r4 := c.Rule("R4", "serial point codec field completeness", 8)
+	r4 := c.Rule("R4", "serial point codec field completeness", 5)
 
 	decs := c17FindDecoders(c, "client")
 	if len(decs) != 1 {
